@@ -569,7 +569,8 @@ def runPubLine (st0 : PSt) (r0 : Report) (sec : Nat) (l0 : Line) : PSt × Report
           let (st', e') := st.doRegister e0 lease
           st := st'
           evs := evs ++ e'
-          if (kv? l.obs "err").isSome then r := r.mismatch sec l.idx "KeepAlive()=nil" "err=1"
+          if (kv? l.obs "err").isSome then
+            r := r.violation sec l.idx s!"KeepAlive-failed-although-no-etcd-call-failed op=[{joinSp l0.op}] (the service is not registered)"
         | some (fk, _) =>
           -- KeepAlive(): one attempt, the error is returned, no keep-alive goroutine
           let a : Attempt := if fk == "grant" then .grantErr else if fk == "put" then .putErr lease else .kaErr lease
